@@ -355,19 +355,40 @@ func runC03(c *eng.Ctx) {
 		}
 	}
 	if fn := c.Fn("server/commitlog.getHWPos"); fn != nil {
-		okShape, nOK := true, 0
+		// The answer is the read limit of committed readers: the position where committed data ends. findEntry(hw) answers the
+		// first entry AT OR AFTER hw, so its end is the limit only when that entry is not past the watermark; when it is (the
+		// watermark's own message is gone: retention, compaction of a lagging log) committed data ends where that entry
+		// starts; when the watermark lies beyond the log end the whole log is committed.
+		okShape, nOK, why := true, 0, ""
+		ent := eng.Call(0, "server/commitlog.segment.findEntry")
+		notPast := eng.CmpEdges(fn, eng.LoadNamed("Offset", ent), eng.Param("hw"), eng.LE)
+		past := eng.CmpEdges(fn, eng.LoadNamed("Offset", ent), eng.Param("hw"), eng.GT)
+		wholeLog := eng.CmpEdges(fn, eng.Call(-1, "server/commitlog.segment.NextOffset"), eng.Param("hw"), eng.LE)
 		for _, r := range eng.Returns(fn) {
-			if len(r.Results) == 3 && eng.NilConst(r.Results[2]) {
-				nOK++
-				// every successful answer is the end of the entry that findEntry(hw) returned
-				ent := eng.Call(0, "server/commitlog.segment.findEntry")
-				if !eng.BinComm(token.ADD, eng.LoadNamed("Position", ent), eng.LoadNamed("Size", ent))(r.Results[1]) {
-					okShape = false
+			rv := eng.RetVals(r)
+			if len(rv) != 3 || !eng.NilConst(rv[2]) {
+				continue
+			}
+			nOK++
+			switch {
+			case eng.BinComm(token.ADD, eng.LoadNamed("Position", ent), eng.LoadNamed("Size", ent))(rv[1]):
+				if g, _ := eng.GuardedBy(fn, r, notPast); !g || len(notPast) == 0 {
+					okShape, why = false, "the END of the entry findEntry(hw) returned is taken as the read limit without checking that the entry is not past the watermark: when the watermark's own message is no longer in the log (retention removed its segment while the watermark lagged) the first retained message above the watermark is handed to committed readers"
 				}
+			case eng.LoadNamed("Position", ent)(rv[1]):
+				if g, _ := eng.GuardedBy(fn, r, past); !g || len(past) == 0 {
+					okShape, why = false, "the START of the watermark entry is taken as the read limit although the entry is the watermark's own message: the committed message at the watermark is withheld"
+				}
+			case eng.Call(-1, "server/commitlog.segment.Position")(rv[1]):
+				if g, _ := eng.GuardedBy(fn, r, wholeLog); !g || len(wholeLog) == 0 {
+					okShape, why = false, "the end of the log is taken as the read limit without the log ending at or below the watermark"
+				}
+			default:
+				okShape, why = false, "a successful answer is neither the end of the watermark entry, the start of the first entry past the watermark, nor the end of a log that ends below the watermark"
 			}
 		}
 		okShape = okShape && nOK > 0
-		c.Check(okShape, "getHWPos result", p.Pos(fn.Pos()), "entry.Position + entry.Size of the entry found for hw", "getHWPos does not return the end position (Position + Size) of the watermark entry")
+		c.Check(okShape, "getHWPos result", p.Pos(fn.Pos()), "the position where committed data ends (end of the watermark entry; start of the first entry past a vanished watermark; end of a log that lies below the watermark)", "getHWPos: "+why)
 		fe := eng.CallsIn(fn, "server/commitlog.segment.findEntry")
 		c.Check(len(fe) == 1 && eng.Param("hw")(fe[0].Common().Args[1]), "getHWPos looks up hw", p.Pos(fn.Pos()), "findEntry(hw)", "getHWPos does not look up the entry of the high watermark offset")
 	}
@@ -508,6 +529,16 @@ func runC03(c *eng.Ctx) {
 	// ---- R01.14 (shared) readers look segments up in a freshly fetched list
 	c.Rule("R01.14", "K5")
 	ruleFreshSegmentList(c)
+	c.Floor(3)
+
+	// ---- R03.11 read-only wake-up on a writable log is retried; R01.15 (shared) rolls and appends exclude each other;
+	// no reader parks on a sealed segment
+	c.Rule("R03.11", "K2")
+	ruleReadonlyRetry(c)
+	ruleSealedSegmentDoesNotPark(c)
+	c.Floor(2)
+	c.Rule("R01.15", "K4")
+	ruleRollExcludesAppend(c)
 	c.Floor(3)
 
 }
